@@ -177,7 +177,7 @@ K("C08", "K08-line", "c08_line_residuals_nonnegative_small", crate="tantivy-colu
   functions=["Line::train_from", "Line::eval", "compute_slope"], bounds="4 points base + offsets < 2^12, any u64 base (wrapping); residual < 2^14")
 K("C08", "K08-line-single", "c08_line_single_value", crate="tantivy-columnar", timeout=60, title="single-value column: default line", functions=["Line::train_from"], bounds="")
 K("C08", "K08-dense-rank-select", "c08_dense_rank_select_word", crate="tantivy-columnar", timeout=300,
-  title="dense optional-index block: rank / select on a 64-bit word are inverse", functions=["dense::rank_u64", "dense::select_u64", "get_bit_at"], bounds="all u64 words, all positions; unwind 66")
+  title="dense optional-index block: rank / select on a 64-bit word are inverse", functions=["dense::rank_u64", "dense::select_u64", "get_bit_at"], bounds="all u64 words, all positions for rank; select for ranks < 8; unwind 9")
 K("C08", "K08-dense-bits", "c08_dense_bit_accessors", crate="tantivy-columnar", timeout=60, title="set_bit_at / get_bit_at", functions=["dense::set_bit_at", "get_bit_at"], bounds="all words", checks="full")
 K("C08", "K08-sparse-block", "c08_sparse_block_rank_select", crate="tantivy-columnar", timeout=300,
   title="sparse optional-index block: contains / rank / rank_if_exists / select vs definition", functions=["SparseBlock::{binary_search,contains,rank,rank_if_exists,select}"], bounds="<= 4 sorted u16; unwind 6")
